@@ -55,7 +55,12 @@ class XmlGenerator(TreeListener):
                 break
         items = []
         for f in ["start", "value"]:
-            val = getattr(tree, f).value
+            attr = getattr(tree, f)
+            if not isinstance(attr, ast.Primary):
+                # not a bare literal, e.g. `start = -1` is unary minus applied to 1
+                items.append(E("item", self.xml[attr], name=f))
+                continue
+            val = attr.value
             if val is None:
                 continue
             items.append(E("item", E("real", value=str(val)), name=f))
